@@ -144,6 +144,93 @@ def hbuff_prologue(ctx):
                 ctx.violation(f"hbuff-prologue:{'missing' if want else 'spurious'}:{src[3:]}", f"{src!r} add_standard_prefix={prefix}: prologue {'absent' if want else 'present'}", {"source": src, "options": {"add_standard_prefix": prefix}, "emitted": out})
 
 
+def split_args(code, start):
+    depth, k, args, cur = 1, start, [], ""
+    while k < len(code) and depth:
+        ch = code[k]
+        if ch == '"':
+            j = code.find('"', k + 1)
+            j = len(code) - 1 if j < 0 else j
+            cur += code[k:j + 1]
+            k = j + 1
+            continue
+        if ch == "(":
+            depth += 1
+        elif ch == ")":
+            depth -= 1
+            if not depth:
+                break
+        if ch == "," and depth == 1:
+            args.append(cur.strip())
+            cur = ""
+        else:
+            cur += ch
+        k += 1
+    args.append(cur.strip())
+    return args
+
+
+def argument_representation(ctx):
+    """BASIC09 hands a procedure the storage of each argument as it is, without conversion: a REAL where the procedure
+    declares INTEGER or BYTE (or the other way round) is read as different bytes, and a string literal longer than the
+    declared STRING[n] arrives cut.  For every RUN of every device program the representation of each argument (REAL
+    variable / literal with a point, INTEGER literal / FIX(), declared type of a prologue variable, length of a string
+    literal) is compared with the parameter's declared type in the library text."""
+    lib = library()
+    progs = [src for name, tag, src in families.device_programs(False) if tag in ("vars", "lits")]
+    seen = set()
+    n = 0
+    for src in progs:
+        o = classify(src + "\n", plain=False, add_standard_prefix=True, add_suffix=False, skip_procedure_headers=True)
+        if o[0] != "ok":
+            continue
+        text = o[1]
+        declared = {}
+        for m in re.finditer(r"(?im)^\s*(?:\d+\s+)?dim\s+([^:\n]+):\s*(\w+)", text):
+            for nm in m.group(1).split(","):
+                declared[re.sub(r"\(.*", "", nm).strip().upper()] = m.group(2).lower()
+        for line in text.split("\n"):
+            code = re.sub(r"\(\*.*", "", line)
+            for m in re.finditer(r"(?i)\brun\s+(\w+)\(", code):
+                P = lib.get(m.group(1).lower())
+                if P is None:
+                    continue
+                args = split_args(code, m.end())
+                if len(args) != len(P.params):
+                    continue  # arity is C14's subject
+                for a, prm in zip(args, P.params):
+                    pt = prm[2].lower()
+                    if a.lower() == "pid" and "HBUFF" not in src:
+                        continue  # HGET / HPUT without any HBUFF: no buffer prologue, hence no declaration of pid (not a program)
+                    if re.fullmatch(r"-?\d+", a) or re.fullmatch(r"\$[0-9A-Fa-f]+", a) or re.match(r"(?i)FIX\(", a):
+                        rep = "integer"
+                    elif re.fullmatch(r"-?\d*\.\d*(E[+-]?\d+)?", a) or re.match(r"(?i)FLOAT\(", a):
+                        rep = "real"
+                    elif re.fullmatch(r'"[^"]*"', a):
+                        rep = ("string", len(a) - 2)
+                    elif re.fullmatch(r"[A-Za-z_][A-Za-z_0-9]*\$?", a):
+                        rep = declared.get(a.upper()) or ("string-var" if a.endswith("$") else "real")
+                    else:
+                        rep = None  # an expression: BASIC09 evaluates it into a temporary of the expression's type (not decided here)
+                    n += 1
+                    ctx.stats["obligations"] += 1
+                    bad = None
+                    if rep in ("real", "integer", "byte") and pt in ("real", "integer", "byte") and rep != pt:
+                        bad = f"{rep}-for-{pt}"
+                    if isinstance(rep, tuple) and pt == "string":
+                        cap = 32 if prm[3] in (None, -1) else prm[3]
+                        if rep[1] > cap:
+                            bad = f"literal-of-{rep[1]}-characters-for-string-{cap}"
+                    if bad is None:
+                        ctx.stats["identity"] += 1
+                    elif (m.group(1).lower(), prm[0], bad) not in seen:
+                        seen.add((m.group(1).lower(), prm[0], bad))
+                        ctx.violation(f"arg-representation:{m.group(1).lower()}.{prm[0].lower()}:{bad}", f"{src!r} -> `{code.strip()[:110]}`: argument {a!r} is a {rep if isinstance(rep, str) else 'string literal'}, parameter {prm[0]} of {m.group(1)} is declared {pt}{'' if prm[3] in (None, -1) else '[' + str(prm[3]) + ']'}", {"source": src, "emitted": text})
+    ctx.bounds["run_arguments_typed"] = n
+    if not n:
+        raise HarnessError("argument_representation: no RUN argument found")
+
+
 def run(tier):
     ctx = Ctx("C04", tier, "translation_validation", technique="translation validation with SMT: RUN arguments bound to the real ecb.b09 param lists and compared per parameter name with a reference map, operands symbolic; BasicPoke on a symbolic address")
     smt.reset_stats()
@@ -171,6 +258,7 @@ def run(tier):
         ctx.sample({"source": r["job"][2], "emitted": (r.get("emitted") or "").strip()[:160], "status": r["status"]})
     poke_threshold(ctx)
     hbuff_prologue(ctx)
+    argument_representation(ctx)
     # operands that are record fields read by name (the default colour display.hfore, the sound octave play.octo) have the
     # value the runtime stored only if the program's record declarations agree field for field with the library's
     from vf.core import ContractCtx
